@@ -24,6 +24,7 @@ func RunLeechers(c *sim.Ctx) {
 	recheck := time.Duration([]int{10, 100, 1000}[knob("recheck_interval", 0, 2)]) * time.Millisecond
 	parallel := knob("parallel_chunks", 1, 5)
 	nPeers := knob("peers", 1, 4)
+	rememberPeer := knob("ongoing_peer_remembered_after_session", 0, 1) == 1 // application variant: OngoingSessionPeer keeps naming the last session's peer
 	nOps := knob("ops", 1, 24)
 	c.ProbeDecl("request_chunks_called", "window_full", "tick_while_suspended", "done_reported", "chunk_dropped_window_overflow",
 		"session_started", "unregister_of_session_peer", "terminate_with_session", "session_terminated_by_flag")
@@ -153,6 +154,7 @@ func RunLeechers(c *sim.Ctx) {
 			start := time.Now()
 			now := func() time.Duration { return time.Since(start) }
 			ongoing := ""
+			lastPeer := ""
 			flag := false
 			terminated := false
 			registered := map[string]bool{} // as the application sees it: RegisterPeer returned / UnregisterPeer returned
@@ -185,6 +187,7 @@ func RunLeechers(c *sim.Ctx) {
 						return
 					}
 					ongoing = cands[int(sim.Mix(uint64(now()), uint64(len(cands)))%uint64(len(cands)))]
+					lastPeer = ongoing
 				},
 				TerminateSession: func() {
 					if ongoing != "" && flag {
@@ -193,7 +196,12 @@ func RunLeechers(c *sim.Ctx) {
 					ongoing = ""
 				},
 				OngoingSession:     func() bool { return ongoing != "" },
-				OngoingSessionPeer: func() string { return ongoing },
+				OngoingSessionPeer: func() string {
+					if rememberPeer {
+						return lastPeer
+					}
+					return ongoing
+				},
 			})
 			l.Start()
 			fire := func(s stim, t time.Duration) {
